@@ -12,6 +12,8 @@ from ..record import Recorder, reset_options
 
 NP_SCALARS = ["int8", "int16", "int32", "int64", "uint8", "uint16", "uint32", "uint64", "float16", "float32", "float64"]
 ARG_SHAPES = [(), (), (2,), (3,), (1, 3), (2, 1), (2, 1, 3)]
+NARROW_BIG = [("int8", 100), ("int8", -100), ("uint8", 200), ("int16", 300), ("int16", -30000), ("uint16", 60000), ("int32", 70000),
+              ("uint32", 70000), ("float16", 300.0), ("float32", 4099.5)]
 BIG = [-1, -2, 2 ** 16 + 1, 2 ** 17, 2 ** 20 + 3, -(2 ** 16 + 1), 255, 256, 65535]
 
 
@@ -19,6 +21,10 @@ def rand_value(rng, shape, kind, small=True):
     c = rng.random()
     size = int(numpy.prod(shape, dtype=int))
     if shape == ():
+        if not small and c < 0.5:
+            # a value near the top of a narrow numpy type: its powers must not be taken in that type
+            dt, v = rng.choice(NARROW_BIG)
+            return numpy.dtype(dt).type(v)
         if c < 0.3:
             return rng.choice(BIG) if not small else rng.randint(-3, 3)
         if c < 0.4:
